@@ -171,7 +171,7 @@ impl Check for C20 {
         // no random byte faults here: the async iterator has no way to lower the 4 GB size limit, so a
         // flipped size field would make both iterators allocate gigabytes (legitimately). Error paths are
         // covered by truncation and by structure-preserving faults that leave declared sizes alone.
-        let io_o = InputOpts { doc: doc.clone(), faulted_pct: 0, truncated_pct: 15, random_pct: 0, soup_pct: 0, max_faults: 0 };
+        let io_o = InputOpts { doc: doc.clone(), faulted_pct: 0, truncated_pct: 15, random_pct: 0, soup_pct: 0, max_faults: 0, mid_document_pct: 10 };
         let mut gi = cases::gen_input(&mut rng, &spec, &io_o, &mut fs);
         if gi.class == "valid" && rng.chance(1, 8) {
             let d = crate::gen::gen_doc(&mut rng, &spec, &doc);
